@@ -47,6 +47,27 @@ Definition chain_compiles (sts : list stage) : bool :=
   && nodupb (kSTART :: kEND :: chain_all_keys sts)
   && stages_compile false sts.
 
-(* graphs of the forest are well-formed by construction (generator); chains may be malformed on purpose *)
+(* the forest entries the root reaches through sub-graph nodes (an entry no node refers to is never built) *)
+Definition kind_subs (k : nkind) : list nat := match k with KSub i => [i] | _ => [] end.
+Definition gdef_subs (d : gdef) : list nat :=
+  match d with
+  | GGraph g => flat_map (fun n => kind_subs (n_kind n)) (g_nodes g)
+  | GChain sts _ => flat_map (fun st => flat_map (fun s => kind_subs (sn_kind s)) (stage_snodes st)) sts
+  end.
+
+Fixpoint reach (fuel : nat) (ds : list gdef) (i : nat) : list nat :=
+  match fuel with
+  | O => []
+  | S f => i :: match nth_error ds i with
+                | Some d => flat_map (reach f ds) (gdef_subs d)
+                | None => []
+                end
+  end.
+
+(* graphs of the forest are well-formed by construction (generator); chains may be malformed on purpose.
+   Compile of the root fails iff a chain it reaches is not accepted. *)
 Definition forest_compiles (ds : list gdef) : bool :=
-  forallb (fun d => match d with GChain sts _ => chain_compiles sts | GGraph _ => true end) ds.
+  forallb (fun i => match nth_error ds i with
+                    | Some (GChain sts _) => chain_compiles sts
+                    | _ => true
+                    end) (reach (S (List.length ds)) ds 0).
